@@ -484,6 +484,14 @@ func vh_close_with_error() {
 	} else {
 		vAssert(s1+s2 == 0, "C06/close/plain-close-sends-nothing")
 	}
+	// whatever close delivers to a caller is the closing error: never something exec would take for the
+	// server's response to that request (a callResp without error)
+	for _, ch := range []chan callResp{c1.resp, c2.resp} {
+		if vSentOn(ch) > 0 {
+			r, _ := vLastSent(ch).(callResp)
+			vAssert(r.err != nil && r.framer == nil, "C01/close/a-caller-is-never-handed-a-response-the-server-did-not-send")
+		}
+	}
 	vAssert(c.conn.(*vNetConn).closed == boolInt(!already), "C06/close/socket-closed-once")
 	vObserve("closed", c.closed)
 }
